@@ -118,6 +118,7 @@ pub fn run(case: &Case, _full: bool, _fill: u8, out: &mut String) {
                 let sz = int(&op[1]);
                 let bytes = unhex(&op[2]);
                 match sz {
+                    0 => load_case::<PodStr<0>>(&bytes),
                     1 => load_case::<PodBool>(&bytes),
                     4 => load_case::<PodOption<N4>>(&bytes),
                     8 => load_case::<PodOption<N8>>(&bytes),
@@ -136,6 +137,7 @@ pub fn run(case: &Case, _full: bool, _fill: u8, out: &mut String) {
                 all[off..off + bytes.len()].copy_from_slice(&bytes);
                 let view = &all[off..off + bytes.len()];
                 match sz {
+                    0 => load_case::<PodStr<0>>(view),
                     1 => load_case::<PodBool>(view),
                     4 => load_case::<PodOption<N4>>(view),
                     8 => load_case::<PodOption<N8>>(view),
@@ -144,11 +146,28 @@ pub fn run(case: &Case, _full: bool, _fill: u8, out: &mut String) {
                     _ => panic!("bad size"),
                 }
             }
+            "loadmutnw" => {
+                // load_mut without any write through the view: the buffer must stay as it was
+                let sz = int(&op[1]);
+                let bytes = unhex(&op[2]);
+                let mut own = bytes.clone();
+                match sz {
+                    0 => { let _ = PodStr::<0>::load_mut(&mut own); }
+                    1 => { let _ = PodBool::load_mut(&mut own); }
+                    4 => { let _ = PodOption::<N4>::load_mut(&mut own); }
+                    8 => { let _ = PodOption::<N8>::load_mut(&mut own); }
+                    10 => { let _ = PodStr::<10>::load_mut(&mut own); }
+                    32 => { let _ = PodOption::<N32>::load_mut(&mut own); }
+                    _ => panic!("bad size"),
+                }
+                format!("O{}", if own.is_empty() { "-".to_string() } else { hex(&own) })
+            }
             "loadmut" => {
                 let sz = int(&op[1]);
                 let bytes = unhex(&op[2]);
                 let val = unhex(&op[3]);
                 match sz {
+                    0 => loadmut_case::<PodStr<0>>(&bytes, &val),
                     1 => loadmut_case::<PodBool>(&bytes, &val),
                     4 => loadmut_case::<PodOption<N4>>(&bytes, &val),
                     8 => loadmut_case::<PodOption<N8>>(&bytes, &val),
